@@ -13,10 +13,12 @@ Two parts:
   (`Props.reach_sound_complete`).  The harness dumps the REAL object graph of a Config
   and the oracle runs `reach` on it.
 
-* `St`, `denyParts`, `overrideParts`, `initCfg` — the Impl model of `Config.init`, defects
-  included: `resolveImpl` reproduces `resolveModule`, which looks every component of a
-  nested module path up in the ROOT module instead of descending.  `resolveSpec` is what
-  the property demands (descend component by component).
+* `St`, `denyParts`, `overrideParts`, `initCfg` — the Impl model of `Config.init`:
+  `resolveImpl` reproduces `resolveModule` as repaired in /repo (a cursor that descends one
+  module per path component); `resolveSpec` is what the property demands (descend component
+  by component) and `Lemmas.resolveImpl_eq_spec` shows they agree on every path.  The
+  resolver as it was BEFORE the repair — every component looked up in the ROOT module — is
+  kept as the historical definitions `preFixResolve`, `preFixDenyParts`, `preFixOverrideParts`.
 
 * `HOpt`, `HCfg`, `build`, `runBuilds` — the host's Go maps as heap objects with identity,
   `cfg.globals` as a reference, any number of configurations built in one world
@@ -167,20 +169,38 @@ def memberModule (st : St) (m : Id) (n : Name) : Option Id :=
       | some x => if st.isModule x then some x else none
       | none => none
 
-/-- the loop of `resolveModule` (risor_config.go): every component is looked up in the ROOT
-    module `m`; the last hit is returned -/
-def resolveLoop (st : St) (m : Id) : List Name → Option Id → Option Id
-  | [], r => r
-  | n :: ns, _ =>
-    match memberModule st m n with
-    | some x => resolveLoop st m ns (some x)
+/-- the loop of `resolveModule` (risor_config.go) as repaired ("fix: resolve a nested module
+    path by descending one module per component"): `cur` is the module found so far (Go:
+    `result`, which starts at the root module `m`); each component is looked up in `cur` and the
+    module found becomes the next `cur` -/
+def resolveLoop (st : St) : Id → List Name → Option Id
+  | cur, [] => some cur
+  | cur, n :: ns =>
+    match memberModule st cur n with
+    | some x => resolveLoop st x ns
     | none => none
 
-/-- `resolveModule(m, path)` as the code is -/
+/-- `resolveModule(m, path)` as the code is (the `len(attr) == 0` early return, then the loop) -/
 def resolveImpl (st : St) (m : Id) (path : List Name) : Option Id :=
   match path with
   | [] => some m
-  | _ => resolveLoop st m path none
+  | _ => resolveLoop st m path
+
+/-- HISTORICAL (before the repair): the loop of `resolveModule` looked every component up in
+    the ROOT module `m`; the last hit was returned -/
+def preFixResolveLoop (st : St) (m : Id) : List Name → Option Id → Option Id
+  | [], r => r
+  | n :: ns, _ =>
+    match memberModule st m n with
+    | some x => preFixResolveLoop st m ns (some x)
+    | none => none
+
+/-- HISTORICAL: `resolveModule(m, path)` as the code was before the repair (recorded finding
+    C11-nested-module-path; `Props.C11_fixed_nested_deny_was_ignored`) -/
+def preFixResolve (st : St) (m : Id) (path : List Name) : Option Id :=
+  match path with
+  | [] => some m
+  | _ => preFixResolveLoop st m path none
 
 /-- what "the nested module named by `path`" means: descend one component at a time -/
 def resolveSpec (st : St) (m : Id) : List Name → Option Id
@@ -233,6 +253,9 @@ def denyParts := denyWith resolveImpl
 def overrideParts := overrideWith resolveImpl
 def denySpec := denyWith resolveSpec
 def overrideSpec := overrideWith resolveSpec
+/-- HISTORICAL: one denylist / overrides entry as applied before the repair -/
+def preFixDenyParts := denyWith preFixResolve
+def preFixOverrideParts := overrideWith preFixResolve
 
 /-- applyDefaultGlobals: defaults are written OVER whatever the options put into
     cfg.globals, unless WithoutDefaultGlobals -/
@@ -277,8 +300,10 @@ def target (st : St) : List Name → Option Id
         | some tm => if last = dunderName then none else (st.table tm).bind fun t => tget t last
         | none => none
 
-/-- guard of the known finding: a dotted name with two or more intermediate module
-    components (`a.b.c.f`), the only shape on which `resolveImpl` and `resolveSpec` differ -/
+/-- a dotted name with two or more intermediate module components (`a.b.c.f`): the only shape
+    on which the pre-fix resolver `preFixResolve` and `resolveSpec` differed (it was the guard of
+    the repaired finding C11-nested-module-path; no theorem about the code as it is carries it
+    any more — the oracle still reports it so that the harness can count such names) -/
 def deepName (parts : List Name) : Bool := decide (4 ≤ parts.length)
 
 /-! ## Script access attempts on the skeleton -/
